@@ -177,3 +177,57 @@ func C05_shape() {
 	}
 	sym.Assert(len(errs) == nfail, "no other errors")
 }
+
+// ---- one Go slice returned for several list fields of different leaf types
+
+const c05SharedSchema = `type Query { li: [Int] ls: [String] ld: [ID] lf: [Float] }`
+
+type c05SharedNode struct{ list []interface{} }
+
+func (n *c05SharedNode) Resolve(field *ggql.Field, args map[string]interface{}) (interface{}, error) {
+	if field.Name == "query" {
+		return n, nil
+	}
+	return n.list, nil
+}
+
+// C05_shared: the application hands the same []interface{} to several list
+// fields (S int32 elements): each position of each field still has the shape
+// of ITS declared type, in whatever order the fields are selected, and the
+// application's slice is left as it was.
+func C05_shared() {
+	a, b := sym.Int32("a"), sym.Int32("b")
+	sym.Assume(sym.And(a >= -9, a < 100, b >= 0, b < 10)) // formatting bound (DESIGN.md section 3.4)
+	n := &c05SharedNode{list: []interface{}{a, b}}
+	root := ggql.NewRoot(n)
+	if err := root.ParseString(c05SharedSchema); err != nil {
+		panic("harness schema rejected: " + err.Error())
+	}
+	docs := []string{"{li ls}", "{ls li}", "{ld li lf}", "{lf x:li ls}"}
+	res := root.ResolveString(docs[sym.Choice("doc", len(docs))], "", nil)
+	sym.Observe("res", res)
+	sym.Assert(res["errors"] == nil, "valid request has no errors")
+	data, _ := res["data"].(map[string]interface{})
+	sym.Assert(data != nil, "data present")
+	for k, v := range data {
+		l, ok := v.([]interface{})
+		sym.Assert(ok && len(l) == 2, "lists mirrored element by element")
+		for _, e := range l {
+			switch k {
+			case "li", "x":
+				_, is := e.(int32)
+				sym.Assert(is, "leaf has the representation of its declared type")
+			case "ls", "ld":
+				_, is := e.(string)
+				sym.Assert(is, "leaf has the representation of its declared type")
+			default:
+				_, is32 := e.(float32)
+				_, is64 := e.(float64)
+				sym.Assert(is32 || is64, "leaf has the representation of its declared type")
+			}
+		}
+	}
+	e0, ok0 := n.list[0].(int32)
+	e1, ok1 := n.list[1].(int32)
+	sym.Assert(ok0 && ok1 && e0 == a && e1 == b, "the application's slice is left as it was")
+}
